@@ -555,6 +555,7 @@ class Prop:
                 violation = {"class": cls, "detail": detail, "info": info or {}}
 
         seen_names = set()
+        states = []
         output_done = False
         compared = 0
         nonzero = 0
@@ -677,6 +678,10 @@ class Prop:
                 if st in (1, 3) and k2 not in series[nm]._data:
                     hist[(nm, k2)] = 2
                     bump("eviction_observed")
+            sig = 0
+            for nm, sobj in series.items():
+                sig ^= hash((nm, frozenset(sobj._data)))
+            states.append(format(sig & 0xFFFFFFFFFFFF, "x"))
         bump("compared", compared)
         if nonzero:
             bump("value_nonzero", nonzero)
@@ -691,7 +696,9 @@ class Prop:
         except Exception:
             pass
         nontrivial = compared >= 10 and len(seen_names) >= 3 and nonzero > 0 and internal_after
-        return self._out(violation, events, counters, nontrivial)
+        out = self._out(violation, events, counters, nontrivial)
+        out["states"] = states
+        return out
 
     @staticmethod
     def _out(violation, events, counters, nontrivial):
